@@ -571,6 +571,39 @@ Theorem C19_plsr_entry_shift : forall (init : tensor R -> list (tensor R)) (ne_s
 Proof. exact plsr_entry_shift. Qed.
 Print Assumptions C19_plsr_entry_shift.
 
+(* ... in particular over R (an instance of the ring statement): together with C19_plsr_entry_shift both two-fit clauses hold over R for
+   every number of components (the deflation sequence is inside fit_loop, by induction), every pass budget and tolerance, matrix and
+   vector-valued Y *)
+Corollary C19_plsr_entry_perm_R : forall (init : tensor R -> list (tensor R)) (ne_solve : list (list R) -> list R -> list R)
+  (p : list nat) (n : nat), Permutation p (seq 0 n) ->
+  forall (prm : pprm) (X Y : tensor R) (sx : list nat) (a : pattrs),
+  shape X = n :: sx -> (shape Y = [n] \/ exists m, shape Y = [n; m] /\ 0 < m) ->
+  plsr_fit_entry Rops sqrt init ne_solve prm X Y = FitOk a ->
+  exists a', plsr_fit_entry Rops sqrt init ne_solve prm (perm_samples Rops p X) (perm_samples Rops p Y) = FitOk a' /\
+    a_xshape a' = a_xshape a /\ a_yshape a' = a_yshape a /\
+    X_mean_ (a_fit a') = X_mean_ (a_fit a) /\ Y_mean_ (a_fit a') = Y_mean_ (a_fit a) /\
+    loadings (a_fit a') = loadings (a_fit a) /\
+    map (c_yload (F:=R)) (comps (a_fit a')) = map (c_yload (F:=R)) (comps (a_fit a)) /\
+    map (c_B (F:=R)) (comps (a_fit a')) = map (c_B (F:=R)) (comps (a_fit a)) /\
+    fitted_scores (a_fit a') = map (pick Rops n p) (fitted_scores (a_fit a)) /\
+    map (c_yscore (F:=R)) (comps (a_fit a')) = map (pick Rops n p) (map (c_yscore (F:=R)) (comps (a_fit a))) /\
+    forall q Xn, plsr_predict_entry Rops q a' Xn = plsr_predict_entry Rops q a Xn.
+Proof. exact (plsr_entry_perm Rops RTheory sqrt). Qed.
+Print Assumptions C19_plsr_entry_perm_R.
+
+(* a fit interrupted by lstsq raising at component c (LinAlgError inside the component loop): the object is left with the complete
+   columns of the components before c, component c without its coef_ column, zero columns after, and the means / shapes of this fit *)
+Theorem C19_plsr_fit_raising_spec : forall (F : Type) (Op : fops F) (sqrtF : F -> F) (init : tensor F -> list (tensor F))
+  (ne_solve : list (list F) -> list F -> list F) (c : nat) (p : pprm) (X Y : tensor F) (a : pattrs),
+  plsr_fit_entry Op sqrtF init ne_solve p X Y = FitOk a -> c < pp_ncomp p ->
+  exists a', plsr_fit_entry_raising Op sqrtF init ne_solve c p X Y = FitRaisePartial a' /\
+    a_xshape a' = a_xshape a /\ a_yshape a' = a_yshape a /\
+    X_mean_ (a_fit a') = X_mean_ (a_fit a) /\ Y_mean_ (a_fit a') = Y_mean_ (a_fit a) /\
+    comps (a_fit a') = firstn c (comps (a_fit a)) ++ strip_B (nth c (comps (a_fit a)) (zero_comp Op X (as_matrix Y)))
+                       :: repeat (zero_comp Op X (as_matrix Y)) (pp_ncomp p - S c).
+Proof. exact @plsr_fit_raising_spec. Qed.
+Print Assumptions C19_plsr_fit_raising_spec.
+
 (* fit(X, Y) then transform(X) on the object returns the fitted X scores (whatever the object went through before) *)
 Theorem C19_plsr_obj_fit_then_transform : forall (F : Type) (Op : fops F) (sqrtF : F -> F) (init : tensor F -> list (tensor F))
   (ne_solve : list (list F) -> list F -> list F) (o : pobj) (X Y : tensor F) (a : pattrs),
@@ -761,3 +794,23 @@ Example C19_plsr_entry_perm_nonvacuous :
   exists a a', entry X Y = FitOk a /\ entry (perm_samples Zops [2; 0; 1] X) (perm_samples Zops [2; 0; 1] Y) = FitOk a' /\
     loadings (a_fit a') = loadings (a_fit a) /\ fitted_scores (a_fit a) <> [[0; 0; 0]%Z].
 Proof. cbv zeta. do 2 eexists. split; [reflexivity|]. split; [reflexivity|]. split; [vm_compute; reflexivity|vm_compute; discriminate]. Qed.
+
+(* two components with deflation and a VECTOR target (Z instance): the second component is not trivial, the permuted fit has the same
+   loadings and re-ordered scores; a fit interrupted at component 1 keeps component 0 and the loadings of component 1 *)
+Example C19_plsr_two_components_nonvacuous :
+  let X := mk [4; 2; 2] [4; -1; 0; 2; -3; 5; 1; 1; 2; 0; -2; -6; 1; 3; -4; 2]%Z in
+  let Y := mk [4] [1; -2; 4; 3]%Z in
+  let init := fun _ : tensor Z => [mk [2] [1; 0]%Z; mk [2] [0; 1]%Z] in
+  let prm := mkPprm 2 2 0%Z in
+  let p := [2; 0; 3; 1] in
+  exists a a' a'', plsr_fit_entry Zops Z.sqrt init (fun _ b => b) prm X Y = FitOk a /\
+    plsr_fit_entry Zops Z.sqrt init (fun _ b => b) prm (perm_samples Zops p X) (perm_samples Zops p Y) = FitOk a' /\
+    plsr_fit_entry_raising Zops Z.sqrt init (fun _ b => b) 1 prm X Y = FitRaisePartial a'' /\
+    fitted_width a = 2 /\ loadings (a_fit a') = loadings (a_fit a) /\
+    fitted_scores (a_fit a') = map (pick Zops 4 p) (fitted_scores (a_fit a)) /\
+    nth 1 (fitted_scores (a_fit a)) [] <> [0; 0; 0; 0]%Z /\
+    loadings (a_fit a'') = loadings (a_fit a) /\ map (c_B (F:=Z)) (comps (a_fit a'')) = [nth 0 (map (c_B (F:=Z)) (comps (a_fit a))) []; []].
+Proof.
+  cbv zeta. do 3 eexists. split; [reflexivity|]. split; [reflexivity|]. split; [reflexivity|].
+  repeat split; try (vm_compute; reflexivity). vm_compute. discriminate.
+Qed.
